@@ -11,6 +11,7 @@ SUBST = {
     "(*" + M + "internal/net.Client).SendProto": C + "vC29_sendProto",
     "(*" + M + "remote.Config).ContextPropagator": A + "vC29_propagator",
     "(*" + A[:-1] + ".actorSystem).handleRemoteTell": A + "vC29_handleRemoteTell",
+    "(*" + A[:-1] + ".actorSystem).newRemoteSenderPID": A + "vC29_senderPID",
 }
 MO = "model-only"
 CHECK = {
@@ -19,13 +20,13 @@ CHECK = {
     "harness": ["actor/zz_verif_c29.go", "internal/remoteclient/zz_verif_c29.go"],
     "entries": [
         {"fn": C + "vC29_inject", "replay": MO, "cases": {"headers": [0, 1, 2]}, "cover_optional": ("none",)},
-        {"fn": A + "vC29_batch", "replay": MO, "cases_quick": {"headers": [2, 4, 6, 8]}, "cases_thorough": {"headers": [0, 1, 2, 3, 4, 5, 6, 7, 8]}, "cover_optional": ("both-callers-with-headers",)},
+        {"fn": A + "vC29_batch", "replay": MO, "cases_quick": {"headers": [2, 4, 6, 8], "firstCaller": [0, 1]}, "cases_thorough": {"headers": [0, 1, 2, 3, 4, 5, 6, 7, 8], "firstCaller": [0, 1]}, "cover_optional": ("both-callers-with-headers",)},
         {"fn": A + "vC29_single", "replay": MO, "cases_quick": {"headers0": [0, 2]}, "cases_thorough": {"headers0": [0, 1, 2]}},
         {"fn": A + "vC29_respelled", "replay": MO},
     ],
     "opts": {"unwind": 16, "substitute": SUBST},
-    "explanation": "",
-    "bounds": {},
-    "assumptions": [],
+    "explanation": "End to end over the real send and receive code with the wire as identity on map<string,string>: internal/remoteclient client.RemoteTell (both arms), injectMessageMetadata, enrichContext, checkProtoError; internal/net Metadata.Set/IterateHeaders/ToContext/FromContext/ContextWithMetadata; actor actorSystem.remoteTellHandler (the batch loop), deliverRemoteTellMessage, messageMetadata, extractContextWithPropagator, tree.node, PID.IsRunning. Two callers with different, symbolic header sets (0..2 headers each; the same key may occur at both callers with different values) tell the same destination through the coalesced arm, in either order; the accepted messages form one batch; the receiving node's handler is run on that batch. Asserted: message i is delivered in batch order with a context whose restored header map EQUALS the map injected for ITS caller, every header single-valued; the context of each message derives from the request context, never from the previous message's; a message whose caller injected nothing gets the request context itself (no neighbour's headers). Non-coalesced arm (also what RemoteAsk uses): enrichContext puts the headers into the request metadata and extractContextWithPropagator restores exactly them. Keys in a non-canonical spelling come back canonicalised (cover point 'key-respelled', not a violation). Substituted: the ContextPropagator (harness: Inject writes the caller's headers, Extract records what it is given and its parent context), context.WithValue (harness value context), http.Header.Set (canonicalises letters/digits/'-' keys like textproto), serializer choice and payload codec (C25), the per-destination coalescer queue (submit appends to the batch; its concurrency is C27), the socket (NetClient/SendProto record the request), remote.Config.ContextPropagator (returns the harness propagator), newRemoteSenderPID (nil; address parsing is C26) and handleRemoteTell (records context and payload instead of enqueueing).",
+    "bounds": {'callers': 2, 'messages per batch': 2, 'headers per caller': '0..2; keys of 2 and 3 bytes from [A-Za-z0-9-] in canonical MIME spelling (what http.Header.Set produces), values 1 byte; contents symbolic', 'batch shapes': 'quick 4 of the 9 (n0,n1) combinations x both orders, thorough all 9'},
+    "assumptions": ['header map = string -> string as the wire schema (map<string,string>) defines: propagators that write several values per key keep only the first (injectMessageMetadata/enrichContext take v[0]) - outside the claim', 'propagators write keys in canonical MIME spelling (http.Header.Set); otherwise keys come back canonicalised', "protobuf carries map<string,string> unchanged; the frame-level metadata codec is C23's subject", "interleaving of concurrent callers is reduced to the order in which the coalescer accepts their messages (both orders checked); the coalescer itself is C27's subject"],
     "timeout_ms": {"quick": 900000, "thorough": 1800000},
 }
